@@ -119,6 +119,7 @@ func (s *Sock) Deliver(v knxnet.Service) {
 	if s.Closed {
 		return
 	}
+	defer func() { recover() }() // the socket may be closed while the queue operation is pending
 	s.q.Send(v)
 }
 
